@@ -454,7 +454,7 @@ def _cc_inputs(tag):
             toks.append(None)
         else:
             d = st.fresh("density_value", z3.RealSort())
-            st.assume(d > 0)
+            st.assume(d >= 0)      # the grammar's count admits '0.', '.0', '0.0': a zero tag is a density of zero, not "no tag"
             toks += [d, tag]
             C["d"] = d
         return [z3.StringVal("s"), z3.IntVal(0), VList(toks)], {}, C
